@@ -145,7 +145,7 @@ def run(ctx):
         arg = [r.split('@')[0][2:] for r in hi.subtree_refs(hi.args(i)[0]) if r.startswith('v:')]
         side.setdefault(o.rsplit('::', 1)[-1], []).append(arg[0] if arg else 'key')
     ctx.check(side.get('md_opad_') == ['opad'] and side.get('md_', [])[-1:] == ['ipad'], R2, 'hmac::init:ipad-inner-opad-outer', 'pads are fed to the wrong digest objects: %s' % side, hi.where)
-    g_long = hi.gate_edges(lambda atom, pol: hi.N(atom)['k'] == 'BinaryOperator' and hi.N(atom).get('op') == '>' and any(q.short_of(hi.callee(j)) == 'size' for j in hi.calls(hi.N(atom)['ch'][0])) and pol is True)
+    g_long = hi.gate_edges(lambda atom, pol: hi.N(atom)['k'] == 'BinaryOperator' and hi.N(atom).get('op') == '>' and any(q.short_of(hi.callee(j)) == 'size' for j in q.expr_calls_deep(hi, hi.N(atom)['ch'][0])) and pol is True)
     ro_in = [i for i in hi.calls() if hi.bcallee(i) == CR + '::message_digest::readout']
     ctx.check(len(ro_in) == 1 and hi.only_through(ro_in[0], g_long), R2, 'hmac::init:long-key-hashed', 'keys longer than the block are not replaced by their digest (or short ones are)', hi.where)
     hr = P.fn(CR + '::hmac::readout')
@@ -258,7 +258,8 @@ def run(ctx):
     # ---------------- R6 CBC chaining state (compiled back-end)
     PA = model.Program(build.extract([REPO + '/src/aes.cpp'], include_re='^/repo/(src|private|cppcms)/'))
     ctx.units.append('src/aes.cpp')
-    sites = [(f, i) for f in PA.fns.values() for i in f.calls() if f.callee(i) == 'AES_cbc_encrypt']
+    # call sites as seen from the methods of the cipher object (a private helper that wraps the call is looked through)
+    sites = [(f, i) for f in PA.fns.values() if f.kind == 'method' and f.short in ('encrypt', 'decrypt') for i in f.calls_deep() if f.callee(i) == 'AES_cbc_encrypt']
     if not sites:
         ctx.notes.append('C16.R6: the compiled cbc back-end does not call AES_cbc_encrypt (gcrypt build?): rule not applicable to this configuration')
         ctx.check(True, R6, 'openssl-backend:absent', loc=REPO + '/src/aes.cpp')
